@@ -72,6 +72,11 @@ def run_case(case: dict) -> dict:
         pre.append({"op": "protocol", "steps": gen_protocol(rng, list(net.params)), "n": rng.randint(1, 4)})
     counters[f"prefix:{prefix}"] = 1
     steps = gen_protocol(rng, list(net.params))
+    long_steps = rng.random() < 0.15
+    if long_steps:
+        # step boundaries at large model times (hundreds to thousands), with requested points a few milliseconds after a switch
+        steps = [(d * 512.0, v) for d, v in steps[:4]]
+        counters["long_steps"] = 1
     if "update_parameter" in prefix:
         # a parameter is changed without simulating, and the protocol's first step sets it back to the value it had
         # during the previous integration (bookkeeping that remembers 'the values last simulated with' shows here)
@@ -93,7 +98,10 @@ def run_case(case: dict) -> dict:
         rel = rng.random() < 0.5
         kind = rng.choice(["boundaries", "between", "zero", "beyond", "mixed", "illegal"])
         bounds = list(np.cumsum([d for d, _ in steps]))
-        if kind == "boundaries":
+        if long_steps and kind != "illegal":
+            kind = "after_switches"
+            pts = [b + off for b in bounds[:-1] for off in rng.sample([2.0**-8, 2.0**-6, 2.0**-3, 1.0], 2)] + [bounds[-1] - 2.0**-7] + rng.sample(bounds, 1)
+        elif kind == "boundaries":
             pts = rng.sample(bounds, rng.randint(1, len(bounds)))
         elif kind == "between":
             pts = [dy(rng, 0.0625, total) + 0.0625 for _ in range(rng.randint(1, 6))]
